@@ -54,7 +54,18 @@ type Step struct {
 	// Lazy (reg at a render time): on its first invocation the callback registers one more (silent) callback on its
 	// own table: registration is open at any time, also from within a pass
 	Lazy bool `json:"lazy,omitempty"`
+	// Func (reg): the callback is handed over as a value of a func type (an adapter with an UpdateProperties method):
+	// callbacks need not be comparable
+	Func bool `json:"func,omitempty"`
+	// Bad (reg): 1 = the target is not one of the three declared ones (one past the last / one before the first),
+	// 2 = the time is not one of the four declared ones: refused with an error whatever the owner, nothing registered
+	Bad int `json:"bad,omitempty"`
 }
+
+// funcCB adapts a function to the callback interface; values of this type cannot be compared with ==.
+type funcCB func(tabular.PropertyOwner) error
+
+func (f funcCB) UpdateProperties(po tabular.PropertyOwner) error { return f(po) }
 
 // silent is a callback that does nothing.
 type silent struct{}
@@ -725,7 +736,26 @@ func checkCase(c Case) *ev.Violation {
 					// (a table named as owner through another table's method is ambiguous when it is a wrapper)
 					registrar = other
 				}
-				err := registrar.RegisterPropertyCallback(owner, whens[r.when], targets[r.target], &recorder{r: r, w: w, fail: st.Err && (reps == 1 || rep%2 == 0), grow: st.Grow && st.Owner == "table" && r.when == wAdd && r.target == tRow && rep == 0, lazy: st.Lazy && r.when != wAdd && rep == 0})
+				if st.Bad != 0 {
+					var berr error
+					switch {
+					case st.Bad == 1 && rep%2 == 0:
+						berr = registrar.RegisterPropertyCallback(owner, whens[r.when], tabular.CB_ON_ROW+1, silent{})
+					case st.Bad == 1:
+						berr = registrar.RegisterPropertyCallback(owner, whens[r.when], tabular.CB_ON_ITSELF-1, silent{})
+					default:
+						berr = registrar.RegisterPropertyCallback(owner, tabular.CB_AT_RENDER_POSTCELL+1, targets[r.target], silent{})
+					}
+					if berr == nil {
+						return ev.V("step %d: registering on a %s with an undeclared %s was accepted", step, st.Owner, map[int]string{1: "target", 2: "time"}[st.Bad])
+					}
+					continue
+				}
+				var cb tabular.PropertyCallback = &recorder{r: r, w: w, fail: st.Err && (reps == 1 || rep%2 == 0), grow: st.Grow && st.Owner == "table" && r.when == wAdd && r.target == tRow && rep == 0, lazy: st.Lazy && r.when != wAdd && rep == 0}
+				if st.Func {
+					cb = funcCB(cb.UpdateProperties)
+				}
+				err := registrar.RegisterPropertyCallback(owner, whens[r.when], targets[r.target], cb)
 				unsupported := (st.Owner == "column" || st.Owner == "cell" || st.Owner == "hdrcell") && r.target == tRow
 				if unsupported != (err != nil) {
 					return ev.V("step %d: registering %s returned error %v; unsupported combination: %v", step, w.describe(r), err, unsupported)
